@@ -396,6 +396,9 @@ def val_eq(a, b, st=None):
     if isinstance(a, Flt) and isinstance(b, Flt):
         return z3.fpToIEEEBV(a.v) == z3.fpToIEEEBV(b.v) if False else z3.fpEQ(a.v, b.v)
     if isinstance(a, Str) and isinstance(b, Str):
+        if a.parts is not None or b.parts is not None:
+            from .models_std import str_equal
+            return str_equal(st, a, b)
         return a.id == b.id
     if isinstance(a, UnitT) and isinstance(b, UnitT):
         return z3.BoolVal(True)
@@ -577,6 +580,12 @@ class Executor:
             except ExecBug as b:
                 results.append(PathResult('error', st, msg='ExecBug: ' + str(b) + ' @ ' + self._where(st)))
                 return
+            except (AttributeError, TypeError, KeyError, IndexError, z3.Z3Exception) as b:
+                # a model or the executor met a value shape it does not handle: inconclusive, never a verdict
+                import traceback
+                tb = traceback.extract_tb(b.__traceback__)[-1]
+                results.append(PathResult('error', st, msg=f'{type(b).__name__}: {b} ({os.path.basename(tb.filename)}:{tb.lineno}) @ ' + self._where(st)))
+                return
 
     def _where(self, st):
         for fr in reversed(st.frames):
@@ -741,7 +750,7 @@ class Executor:
             return Struct(t, {}) if t.startswith('{closure@') else Opaque('zst', t)
         if 'promoted[' in txt:
             return self.promoted(st, fr, txt)
-        m = re.match(r'^(u8|u16|u32|u64|u128|usize|i8|i16|i32|i64|i128|isize)::(MAX|MIN|BITS)$', txt.split('::', 1)[-1] if txt.startswith(('core::', 'std::')) and txt.count('::') > 1 else txt)
+        m = re.search(r'(?:^|::|<impl )(u8|u16|u32|u64|u128|usize|i8|i16|i32|i64|i128|isize)>?::(MAX|MIN|BITS)$', txt)
         if m:
             w, s = INT[m.group(1)]
             if m.group(2) == 'BITS':
@@ -749,6 +758,22 @@ class Executor:
             if m.group(2) == 'MAX':
                 return Int(z3.BitVecVal((1 << (w - 1)) - 1 if s else (1 << w) - 1, w), s)
             return Int(z3.BitVecVal(-(1 << (w - 1)) if s else 0, w), s)
+        m = re.search(r'(?:^|::|<impl )(f32|f64)>?::(MAX|MIN|INFINITY|NEG_INFINITY|NAN|EPSILON|MIN_POSITIVE)$', txt)
+        if m:
+            import struct as _s
+            sort = z3.Float32() if m.group(1) == 'f32' else z3.Float64()
+            k = m.group(2)
+            if k == 'INFINITY':
+                return Flt(z3.fpPlusInfinity(sort))
+            if k == 'NEG_INFINITY':
+                return Flt(z3.fpMinusInfinity(sort))
+            if k == 'NAN':
+                return Flt(z3.fpNaN(sort))
+            f32 = m.group(1) == 'f32'
+            val = {'MAX': 3.4028234663852886e38 if f32 else 1.7976931348623157e308, 'MIN': -3.4028234663852886e38 if f32 else -1.7976931348623157e308,
+                   'EPSILON': 1.1920929e-07 if f32 else 2.220446049250313e-16, 'MIN_POSITIVE': 1.17549435e-38 if f32 else 2.2250738585072014e-308}[k]
+            bits = _s.unpack('<I', _s.pack('<f', val))[0] if f32 else _s.unpack('<Q', _s.pack('<d', val))[0]
+            return Flt(z3.fpBVToFP(z3.BitVecVal(bits, 32 if f32 else 64), sort))
         # unit-like enum variant / named constant of this crate
         c = strip_generics(txt)
         segs = c.split('::')
